@@ -92,18 +92,18 @@ theorem notify_function_is_source (C : WC) (s : OSt) (hk : C.n.kind = .dynamic) 
       generalize hs0 : s.ensureItrait = s0 at hself
       handler_cases [WrapProg.TraitChangeNotifyWrapper_notify_function_listener, changeAccepted, ho, hk, hc, hs0, hself]
 
-theorem notify_method_is_source (C : WC) (s : OSt) (hk : C.n.kind = .dynamic) :
+theorem notify_method_is_source (C : WC) (s : OSt) (hk : C.n.kind = .dynamic) (k : Nat) (hn : C.wrapName = some k) :
     Model.PyW.run C WrapProg.TraitChangeNotifyWrapper_notify_method_listener
         [.self, .object, .name, .id C.old, .id C.new] s
       = ofWrapper (callWrapper C.E C.t C.n C.loc C.old C.new s) := by
   unfold callWrapper
   by_cases ho : C.old = uninit
-  · pw_exec [WrapProg.TraitChangeNotifyWrapper_notify_method_listener, changeAccepted, ho, hk]
+  · pw_exec [WrapProg.TraitChangeNotifyWrapper_notify_method_listener, changeAccepted, ho, hk, hn]
   · cases hc : changeAcceptedCmp C.E.cmp C.t.kind C.t.flags C.old C.new
-    · pw_exec [WrapProg.TraitChangeNotifyWrapper_notify_method_listener, changeAccepted, ho, hk, hc]
+    · pw_exec [WrapProg.TraitChangeNotifyWrapper_notify_method_listener, changeAccepted, ho, hk, hc, hn]
     · have hself : s.ensureItrait.self = s.self := ensureItrait_self s
       generalize hs0 : s.ensureItrait = s0 at hself
-      handler_cases [WrapProg.TraitChangeNotifyWrapper_notify_method_listener, changeAccepted, ho, hk, hc, hs0, hself]
+      handler_cases [WrapProg.TraitChangeNotifyWrapper_notify_method_listener, changeAccepted, ho, hk, hc, hs0, hself, hn]
 
 theorem dynamic_call_is_source (C : WC) (s : OSt) :
     Model.PyW.run C WrapProg.TraitChangeNotifyWrapper_call [.self, .object, .name, .id C.old, .id C.new] s
@@ -119,4 +119,35 @@ theorem observe_call_is_source (C : WC) (s : OSt) (hk : C.n.kind = .observe) :
   · generalize hs0 : s = s0
     handler_cases [WrapProg.TraitEventNotifier_call, hk, hp]
   · pw_exec [WrapProg.TraitEventNotifier_call, hk, hp]
+
+/-- the value `equals` receives for a candidate handler -/
+def candVal : Cand → Val
+  | .self => .self
+  | _ => .cand
+
+/-- When does a wrapper stand for a given handler (`on_trait_change` registration / removal look-up)?  The wrapper
+itself; a bound method: same method name and the SAME listener object (identity — equal-but-distinct listener objects
+are different handlers; seeded change C02-m13 compared them with `==`); otherwise a function wrapper whose function
+is that very function. -/
+def equalsSpec (C : WC) : Bool :=
+  match C.cand with
+  | .self => true
+  | .method (some o) k => decide (C.wrapName = some k) && decide (C.wrapOwner = some o)
+  | c => C.wrapName.isNone && decide (c = .func C.wrapFn)
+
+theorem equals_is_source (C : WC) (s : OSt) :
+    Model.PyW.run C WrapProg.TraitChangeNotifyWrapper_equals [.self, candVal C.cand] s
+      = (.ok (.bool (equalsSpec C)), s) := by
+  unfold equalsSpec
+  rcases hc : C.cand with _ | f | ⟨_ | o, k⟩
+  · pw_exec [WrapProg.TraitChangeNotifyWrapper_equals, candVal, hc]
+  · cases hn : C.wrapName <;> pw_exec [WrapProg.TraitChangeNotifyWrapper_equals, candVal, hc, hn]
+  · cases hn : C.wrapName <;> pw_exec [WrapProg.TraitChangeNotifyWrapper_equals, candVal, hc, hn]
+  · rcases hn : C.wrapName with _ | k' <;> rcases ho : C.wrapOwner with _ | o'
+    · pw_exec [WrapProg.TraitChangeNotifyWrapper_equals, candVal, hc, hn, ho]
+    · pw_exec [WrapProg.TraitChangeNotifyWrapper_equals, candVal, hc, hn, ho]
+    · by_cases hk : k = k' <;> pw_exec [WrapProg.TraitChangeNotifyWrapper_equals, candVal, hc, hn, ho, hk] <;>
+        simp [eq_comm, hk]
+    · by_cases hk : k = k' <;> by_cases hoo : o = o' <;>
+        pw_exec [WrapProg.TraitChangeNotifyWrapper_equals, candVal, hc, hn, ho, hk, hoo] <;> simp_all [eq_comm]
 end TraitsVerif.Lemmas.WrapSource
